@@ -6,6 +6,7 @@ pub mod c03;
 pub mod c04;
 pub mod c05;
 pub mod c06;
+pub mod c07;
 pub mod c08;
 pub mod c09;
 pub mod c10;
@@ -25,6 +26,7 @@ pub fn lookup(id: &str) -> Option<PropFn> {
         "C04" => c04::run,
         "C05" => c05::run,
         "C06" => c06::run,
+        "C07" => c07::run,
         "C08" => c08::run,
         "C09" => c09::run,
         "C10" => c10::run,
